@@ -5,6 +5,12 @@ import "verif/lib/vk"
 // buildEntries registers the entry points in priority order.
 func buildEntries(c *vk.Ctx) {
 	registerACL(c)
+	registerACLRoot(c)
 	registerCrypto(c)
 	registerTree(c)
+	registerKV(c)
+	registerHeadSync(c)
+	registerPayloads(c)
+	registerEncoding(c)
+	registerPubsub(c)
 }
